@@ -33,6 +33,7 @@ type Clause struct {
 	Expr  ast.Expr
 	Line  int
 	File  string
+	Site  string // for kind "site": the called function or method name, optionally NAME#k (k-th call in source order)
 }
 
 type LoopContract struct {
@@ -56,11 +57,14 @@ type Contract struct {
 	Requires []*Clause
 	ReadonlyIf *Clause // when it holds at entry the function writes no pre-existing frame-checked object; otherwise anything
 	Ghosts   []string  // logical variables: universally quantified integer constants of the contract
+	Keeps    []string  // T.f / T.*: fields no function reachable from this one stores into (checked on the call graph at each call site)
+	Sites    []*Clause // assertions that must hold immediately before the named calls (//@ at NAME: assert expr)
 	Always   []*Clause // must hold after every call made by the function (crash-consistency style invariants over ghost state)
 	Assumes  []*Clause // assumed at entry, not checked at call sites (data-structure invariants; listed in evidence)
 	Ensures  []*Clause
 	Modifies []*Clause // each with Expr = location expression
 	HasMod   bool      // a modifies clause was given (possibly "\nothing")
+	ModNothing bool    // an explicit `modifies \nothing`
 	Loops    map[int]*LoopContract
 	Lets     map[string]ast.Expr
 	LetOrder []string
@@ -73,7 +77,7 @@ type Contract struct {
 
 func (c *Contract) flag(s string) bool { return c != nil && c.Flags[s] }
 
-var clauseRe = regexp.MustCompile(`^(ghost|always|readonly-if|requires|ensures|invariant|decreases|modifies|let|props|loop|replay|pure|trusted|maypanic|nofunctional|readonly|runes|noframe|nocallframe|noerrprop|flags|assume|check)\b`)
+var clauseRe = regexp.MustCompile(`^(at|keeps|ghost|always|readonly-if|requires|ensures|invariant|decreases|modifies|let|props|loop|replay|pure|trusted|maypanic|nofunctional|readonly|runes|noframe|nocallframe|noerrprop|flags|assume|check)\b`)
 var labelRe = regexp.MustCompile(`^@([A-Za-z0-9_.\-]+)\s*`)
 var propsRe = regexp.MustCompile(`^\{([A-Z0-9, ]+)\}\s*`)
 
@@ -123,6 +127,9 @@ func parseContractFile(path, pkg string) ([]*Contract, error) {
 			cur.HasMod = true
 			for _, part := range splitTop(text) {
 				part = strings.TrimSpace(part)
+				if part == `\nothing` {
+					cur.ModNothing = true
+				}
 				if part == "" || part == `\nothing` || part == `\fresh` {
 					continue
 				}
@@ -148,6 +155,8 @@ func parseContractFile(path, pkg string) ([]*Contract, error) {
 			cur.ReadonlyIf = cl
 		case "always":
 			cur.Always = append(cur.Always, cl)
+		case "site":
+			cur.Sites = append(cur.Sites, cl)
 		case "ensures":
 			cur.Ensures = append(cur.Ensures, cl)
 		case "invariant":
@@ -248,6 +257,8 @@ func parseContractFile(path, pkg string) ([]*Contract, error) {
 			cur.Props = strings.Fields(rest)
 		case "ghost":
 			cur.Ghosts = append(cur.Ghosts, strings.Fields(rest)...)
+		case "keeps":
+			cur.Keeps = append(cur.Keeps, strings.Fields(strings.ReplaceAll(rest, ",", " "))...)
 		case "loop":
 			var n int
 			fmt.Sscanf(strings.TrimSuffix(rest, ":"), "%d", &n)
@@ -278,6 +289,12 @@ func parseContractFile(path, pkg string) ([]*Contract, error) {
 			}
 			pendingLoop = curLoop
 			pending = &Clause{Kind: m, Text: rest, Line: ln, File: path}
+		case "at":
+			i := strings.Index(rest, ":")
+			if i < 0 || !strings.HasPrefix(strings.TrimSpace(rest[i+1:]), "assert") {
+				return nil, fmt.Errorf("%s:%d: expected 'at NAME: assert expr'", path, ln)
+			}
+			pending = &Clause{Kind: "site", Site: strings.TrimSpace(rest[:i]), Text: strings.TrimPrefix(strings.TrimSpace(rest[i+1:]), "assert"), Line: ln, File: path}
 		case "requires", "ensures", "modifies", "assume", "check", "readonly-if", "always":
 			pending = &Clause{Kind: m, Text: rest, Line: ln, File: path}
 		}
